@@ -191,7 +191,12 @@ func parseArEntry(line []byte) (*ArEntry, error) {
 // like an `ar(1)` archive, and not some random file.
 func checkAr(reader io.ReaderAt) (int64, error) {
 	header := make([]byte, 8)
-	if _, err := reader.ReadAt(header, 0); err != nil {
+	/* An io.ReaderAt may report io.EOF together with a full read that ends at
+	 * the end of its input (an archive with no members is just the magic). */
+	if n, err := reader.ReadAt(header, 0); n != len(header) {
+		if err == nil {
+			err = io.ErrUnexpectedEOF
+		}
 		return 0, err
 	}
 	if string(header) != "!<arch>\n" {
